@@ -91,17 +91,19 @@ def parseSpec (tok : String) : Option Spec :=
 
 structure Case where
   w : Nat
+  raw : Bool
   streams : List Spec
 
 def parseCase (line : String) : Option Case :=
   (words line).foldlM (fun (c : Case) (tok : String) =>
     if tok.startsWith "w=" then ((tok.drop 2).toString).toNat?.map fun v => { c with w := v }
+    else if tok == "raw" then some { c with raw := true }
     else if tok.startsWith "cw=" then ((tok.drop 3).toString).toNat?.map fun _ => c
     else if tok.startsWith "sw=" then
       ((tok.drop 3).toString).toNat?.bind fun v => if v == 0 then none else some c
     else if tok.startsWith "pipe=" then
       ((tok.drop 5).toString).toNat?.bind fun v => if v == 0 then none else some c
-    else (parseSpec tok).map fun s => { c with streams := c.streams ++ [s] }) ⟨65535, []⟩
+    else (parseSpec tok).map fun s => { c with streams := c.streams ++ [s] }) ⟨65535, false, []⟩
   |>.bind fun c => if c.w == 0 || c.streams.length > 8 then none else some c
 
 /-- insert before the first entry whose name is not smaller -/
@@ -135,7 +137,7 @@ def bodyOf (k : Nat) (s : Spec) : List Item :=
 def caps (w len : Nat) : List CapAns :=
   (List.range (len + 1)).map fun i => .cap (1 + (i * 37 + w) % w + len / 50)
 
-def runStream (w k : Nat) (s : Spec) : String :=
+def runStream (w : Nat) (raw : Bool) (k : Nat) (s : Spec) : String :=
   let body := bodyOf k s
   let len := (bodyBytes body).length
   let res : Response := ⟨s.status, sizeOf s, s.hdrs⟩
@@ -155,7 +157,7 @@ def runStream (w k : Nat) (s : Spec) : String :=
   match wire.head with
   | none => pre ++ "rst"
   | some h =>
-    let hd := pre ++ toString h.status ++ "|" ++ showHeaders h.headers ++ "|"
+    let hd := pre ++ toString h.status ++ "|" ++ (if raw then "*" else showHeaders h.headers) ++ "|"
     let abortTag := if s.resetAt.isSome && hasErr then "abort" else ""
     if s.resetAt == some 0 then hd ++ (if abortTag == "" then "rst" else abortTag)
     else match wire.end_ with
@@ -170,7 +172,7 @@ def runStream (w k : Nat) (s : Spec) : String :=
 def runCase (c : Case) : String :=
   let rec go : Nat → List Spec → List String
     | _, [] => []
-    | k, s :: r => runStream c.w k s :: go (k + 1) r
+    | k, s :: r => runStream c.w c.raw k s :: go (k + 1) r
   match go 0 c.streams with
   | [] => "-"
   | outs => joinWith ";" outs
